@@ -37,7 +37,7 @@ if [ "$MODE" = benign ] || [ "$MODE" = all ]; then
     echo "$tag" | grep -qE "$FILTER" || continue
     (cd /repo && git apply /verif/$d/patch.diff) 2>/dev/null || { echo "BENIGN $tag: patch no longer applies"; continue; }
     alarms=""
-    for i in 01 02 03 04 05 06 07 08 09 10 11 12 13 14 15 16 17 18 19 20; do
+    for i in ${CHECKS:-01 02 03 04 05 06 07 08 09 10 11 12 13 14 15 16 17 18 19 20}; do      # CHECKS="04 05": only these checks
       out=$(./check C$i quick 2>&1 | grep -E "^VIOLATION|^NOTE|BROKEN")
       echo "$out" | grep -q "^VIOLATION" && alarms="$alarms C$i"
       echo "$out" | grep -E "^NOTE|BROKEN" | cut -c1-200 | sed "s/^/    [$tag C$i] /"
